@@ -529,6 +529,10 @@ impl<S: Storage> Builder<S> {
             .register(id, span.clone(), output_row_counter.clone());
 
         let (tx, rx) = async_broadcast::broadcast(16);
+        // Deactivate the receiver before the producer task can run: deactivating (dropping) an
+        // active receiver discards every message already broadcast to it, which loses chunks
+        // when the task starts on another worker thread.
+        let rx = rx.deactivate();
         let handle = tokio::task::Builder::default()
             .name(&format!("{id}.{name}"))
             .spawn(
@@ -549,7 +553,7 @@ impl<S: Storage> Builder<S> {
             .expect("failed to spawn task");
 
         StreamSubscriber {
-            rx: rx.deactivate(),
+            rx,
             handle: Arc::new(AbortOnDropHandle(handle)),
         }
     }
